@@ -29,6 +29,11 @@ type mworld struct {
 	curLive string
 	snap    *msnap
 	values2 bool // matrix values restricted to {0,1} (large shapes in the quick tier)
+	views   []mview // slice + sibling views left by the last slice-writer operation (views.go)
+	joint   bool    // reduced alphabet with one live joint iterator (joint.go)
+	jforms  []int
+	jmut    bool
+	j       *jslot
 }
 
 type msnap struct {
@@ -173,6 +178,10 @@ func matOpName(o Op) string {
 		return "Iterator.Next"
 	case "midrop":
 		return "Iterator-drop"
+	case "mslop":
+		return "Slice+" + matWriterName(o)
+	case "mjopen", "mjnext", "mjdrop", "mbset", "mbwalk":
+		return jointOpName(o)
 	}
 	return o.C
 }
@@ -200,6 +209,9 @@ func (w *mworld) classify(o Op, s *msnap) string {
 	case "msetw", "mjwalk":
 		r, c := w.dims()
 		cls += "operand=" + patClass(matPatterns(r, c)[o.W/2])
+	case "mslop":
+		R, C := w.dims()
+		cls += matWindowClass(o, R, C)
 	case "mslw":
 		if o.V >= 0 {
 			cls += "parent-cell=" + cc(o.I+o.S, o.K+o.W)
@@ -238,6 +250,7 @@ func (w *mworld) apply(o Op) {
 		return
 	}
 	w.curOp, w.curCls = "", ""
+	w.views = nil
 	if !w.quiet {
 		s := w.snapshot()
 		if !s.ok {
@@ -247,6 +260,9 @@ func (w *mworld) apply(o Op) {
 		w.curCls = w.classify(o, s)
 	}
 	w.snap = nil
+	if w.j != nil {
+		w.j.flags, w.j.side = 0, jointSide(o)
+	}
 	func() {
 		defer func() {
 			if r := recover(); r != nil {
@@ -255,6 +271,9 @@ func (w *mworld) apply(o Op) {
 		}()
 		w.exec(o)
 	}()
+	if w.j != nil {
+		w.j.noteChanges(w)
+	}
 	w.settle()
 	if !w.quiet && w.warn == "" {
 		if s := w.snapshot(); s.ok && s.warn != "" {
@@ -525,6 +544,10 @@ func (w *mworld) exec(o Op) {
 		w.markStale()
 	case "mslw":
 		w.execSlice(o)
+	case "mslop":
+		w.execSliceOp(o)
+	case "mjopen", "mjnext", "mjdrop", "mbset", "mbwalk":
+		w.execJointOp(o)
 	case "mrow", "mcrow":
 		var v ad.ConstVector
 		if o.C == "mrow" {
@@ -857,6 +880,9 @@ func (w *mworld) oracleFresh() {
 	if w.fail != nil || w.m == nil {
 		return
 	}
+	if w.j != nil {
+		w.j.afterFresh = true
+	}
 	func() {
 		defer func() {
 			if r := recover(); r != nil {
@@ -872,6 +898,9 @@ func (w *mworld) oracleFresh() {
 	}()
 	if w.fail == nil && w.checkDims("post-walk-") {
 		w.readsOf(w.m, w.model, "post-walk-")
+	}
+	if w.fail == nil {
+		w.oracleViews()
 	}
 }
 
@@ -920,7 +949,11 @@ func (w *mworld) oracleLive() {
 			return
 		}
 	}
-	if any && w.checkDims("post-live-walk-") {
+	if w.j != nil && w.fail == nil {
+		w.j.finish(w)
+		any = true
+	}
+	if any && w.fail == nil && w.checkDims("post-live-walk-") {
 		w.readsOf(w.m, w.model, "post-live-walk-")
 	}
 }
@@ -951,6 +984,7 @@ func (w *mworld) canon() string {
 	}
 	sort.Strings(ds)
 	sb.WriteString(strings.Join(ds, ";"))
+	sb.WriteString(w.j.canon(s.sh, s.pm.Values.Tree, s.pm.Values.Self, false))
 	return sb.String()
 }
 
@@ -973,6 +1007,9 @@ func (w *mworld) outcome() string {
 }
 
 func (w *mworld) enabled() []Op {
+	if w.joint {
+		return w.enabledJoint()
+	}
 	R, C := w.dims()
 	vals := []int{0, 1, 2}
 	if w.values2 {
@@ -1077,4 +1114,13 @@ func (w *mworld) enabled() []Op {
 		}
 	}
 	return ops
+}
+
+// repOps: operations enumerated from the representative state of a content signature only
+// (views.go)
+func (w *mworld) repOps() ([]Op, int) {
+	if w.joint {
+		return nil, 0
+	}
+	return w.sliceOps(), 0
 }
